@@ -307,8 +307,14 @@ Definition reg_get (r : reg) (id : N) : tlist :=
   match reg_find r id with Some en => re_events en | None => [] end.
 
 (* the threads saveLog iterates over; idtext = what `fout << tid` prints for an unnamed thread (opaque) *)
+(* if (!threadName.empty()) fout << threadName; else fout << tid;   - the name is an attribute of the entry, not its key *)
+Definition display_name (idtext : N -> str) (en : rentry) : str :=
+  match re_name en with
+  | Some (c :: n) => c :: n
+  | _ => idtext (re_id en)
+  end.
 Definition reg_threads (idtext : N -> str) (r : reg) : list thread :=
-  map (fun en => mkThread (match re_name en with Some n => n | None => idtext (re_id en) end) (re_events en)) r.
+  map (fun en => mkThread (display_name idtext en) (re_events en)) r.
 
 (* ------------------------------------------- ThreadEventList::stringCache
    getCachedString(str): the cache is keyed by the POINTER; the text is copied when the pointer
